@@ -17,6 +17,7 @@ MANIFEST = {
     'note': 'Trusted: scipy splrep/splev/PchipInterpolator and np.pad (the reference deliberately uses the same primitives so a scipy upgrade cannot raise a false alarm). pad_width=0 is judged for get_padded_extrema only (interp_envelope documents a ValueError when the extrema do not span the record).',
     'technique': 'reference-model monitor on the real extrema/envelope stages, exhaustive small-scope enumeration + seeded random',
 }
+LOGGER_ON_ODD_SHARDS = True
 BUDGET_S = {'quick': 60, 'thorough': 420}
 MAXLEN = {'quick': 7, 'thorough': 9}
 NRANDOM = {'quick': 1500, 'thorough': 20000}
@@ -242,6 +243,9 @@ def _run_shard(ctx):
         kind = gens.pick(rng, ['noise', 'int', 'int', 'walk', 'tones'])
         N = int(gens.pick(rng, [20, 50, 200, 1000]))
         x = gens.signal(rng, kind, N)
+        if rng.random() < .2:
+            x = x * float(gens.pick(rng, [1e-9, 1e-6, 1e6, 1e9]))     # the same shape at another amplitude
+            ctx.count('rescaled_signals')
         xp, xcanon, tag = gens.present(rng, x, dtypes=('int',), p_plain=.7)
         x = xp          # (check_* compute their reference from the float64 values of whatever is passed)
         ctx.count('presentation:' + tag)
